@@ -241,6 +241,9 @@ def run_engine(prog, trace):
             S = res[1]; res = ['ok', [S.f[i].v for i in range(4)]]
         elif a[0] in ('drop', 'resize', 'close') and res[0] == 'ok': res = ['ok']
         events = [x for x in (norm_event_engine(e) for e in w_managed._events_since_act(s2)) if x]
+        if s2.gget('deadlocks'):
+            # the thread waits for a mutex it holds itself: natively the step never comes back (the driver's watchdog reports it)
+            obs.append({'i': i, 'res': ['deadlock'], 'events': events}); st = s2; break
         status, snap = B.observe(s2)
         obs.append({'i': i, 'res': res, 'events': events, 'status': status, 'snap': snap})
         st = s2
@@ -257,6 +260,7 @@ def compare(native, engine):
         if n.get('mismatch'): return f'step {n["i"]}: native script mismatch: {n["mismatch"]}'
         if n.get('script_left'): return f'step {n["i"]}: native run did not consume {n["script_left"]} scripted outcome(s)'
         nr = n['res']; er = e['res']
+        if nr == ['deadlock'] and er == ['deadlock']: continue
         if nr[:2] == ['ok', 'object'] and len(nr) > 3:
             nr = nr[:3] + [{'recycled': nr[3]['recycled'], 'count': nr[3]['count']}]
         if json.loads(json.dumps(nr)) != json.loads(json.dumps(er)): return f'step {n["i"]}: result native {nr} vs engine {er}'
@@ -493,7 +497,9 @@ def confirm(pid, v, blobs=None):
         # known-finding roles are decided on the concrete history that was just replayed, never on the symbolic path
         flags = run_engine.last_flags
         kid = None
-        if pid == 'C07':
+        if pid == 'C07' and (v.get('lost') or any(x.get('lost') for x in same)):
+            kid = None          # capacity below the configured value is outside every known role
+        elif pid == 'C07':
             kid = 'K-C07a' if 'shrink_unused' in flags else ('K-C07b' if 'grow_with_surplus' in flags else ('K-C07c' if 'shrink_assigned_waiter' in flags else ('K-C07d' if 'shrink_overlaps_release' in flags else None)))
         elif pid == 'C05' and v.get('known') == 'K-C05' and 'status().waiting is 0 while' in v['what']:
             kid = 'K-C05'
